@@ -22,6 +22,7 @@ def make_simdb(TimeSeriesDatabase):
       self.ctx = None
       self.sleeper = None
       self.on_call = None
+      self.inflight = None
 
     # -- fault machinery -------------------------------------------------------
     def _enter(self, kind, metric, payload=None):
@@ -42,7 +43,11 @@ def make_simdb(TimeSeriesDatabase):
           if self.ctx is not None:
             self.ctx.fault('db_slow')
           if self.sleeper:
-            self.sleeper(f[1])
+            self.inflight = kind          # the calling thread sleeps inside the backend call
+            try:
+              self.sleeper(f[1])
+            finally:
+              self.inflight = None
         else:
           rec[5] = 'raise'
           if self.ctx is not None:
